@@ -653,6 +653,8 @@ func (c *client) loopWrite() {
 		verifPause("client.write.handoff", c)
 		select {
 		case <-c.quit:
+			// the request in hand is in neither queue, nobody else can answer it.
+			req.SetResponse(newError(backendExited))
 			return
 		case c.processingReqs <- req:
 		}
